@@ -1290,4 +1290,238 @@ theorem Cubic.norm_spec {cfg : CubicCfg F} {B : FieldD P F} (hc : CubicLawful cf
 
 end finite
 
+/-! ## the concrete wrappers: hooks and Frobenius tables -/
+
+section wrappers
+set_option linter.unusedSectionVars false
+variable {F : Type} [Field F] [DecidableEq F]
+
+theorem index_mod_getD (tbl : List F) (D : ℕ) (h : tbl.length = D) (hD : 0 < D) (k : ℕ) :
+    index tbl (k % D) = .ok (tbl.getD (k % D) 0) := by
+  have hlt : k % D < tbl.length := by rw [h]; exact Nat.mod_lt k hD
+  rw [index_of_lt tbl _ hlt, List.getD_eq_getElem?_getD, List.getElem?_eq_getElem hlt]
+  rfl
+
+/-- a table that is too short makes some Frobenius power panic (`FROBENIUS_COEFF[power % DEGREE]`) -/
+theorem index_mod_panic (tbl : List F) (D : ℕ) (h : tbl.length < D) :
+    index tbl (tbl.length % D) = .panic := by
+  rw [Nat.mod_eq_of_lt h]
+  unfold index
+  rw [List.getElem?_eq_none (Nat.le_refl _)]
+
+theorem Fp2Cfg.default_wrap_lawful (nr : F) (tbl : List F) :
+    QuadLawful (Fp2Cfg.default nr tbl).wrap where
+  mulNr x := by show x * nr = nr * x; ring
+  mulNrAndAdd y x := by show y * nr + x = x + nr * y; ring
+  mulNrPlusOneAndAdd y x := by show y * nr + x + y = x + nr * y + y; ring
+  subAndMulNr y x := by show x - y * nr = x - nr * y; ring
+
+/-- the `bls12_381::Fq2Config` overrides are lawful exactly for `NONRESIDUE = -1` -/
+theorem Fp2Cfg.negOne_wrap_lawful (tbl : List F) :
+    QuadLawful (Fp2Cfg.negOne (-1 : F) tbl).wrap where
+  mulNr x := by show -x = -1 * x; ring
+  mulNrAndAdd y x := by show -y + x = x + -1 * y; ring
+  mulNrPlusOneAndAdd y x := by show x = x + -1 * y + y; ring
+  subAndMulNr y x := by show y + x = x - -1 * y; ring
+
+theorem Fp3Cfg.default_wrap_lawful (nr : F) (c1 c2 : List F) :
+    CubicLawful (Fp3Cfg.default nr c1 c2).wrap where
+  mulNr x := by show x * nr = nr * x; ring
+
+theorem Fp2Cfg.wrap_mulFrobCoeff (c : Fp2Cfg F) (h : c.frobC1.length = 2) (fe : F) (k : ℕ) :
+    c.wrap.mulFrobCoeff fe k = .ok (fe * c.frobC1.getD (k % 2) 0) := by
+  show obind (index c.frobC1 (k % 2)) _ = _
+  rw [index_mod_getD _ 2 h (by norm_num)]
+  rfl
+
+theorem Fp3Cfg.wrap_mulFrobCoeff (c : Fp3Cfg F) (h1 : c.frobC1.length = 3)
+    (h2 : c.frobC2.length = 3) (x y : F) (k : ℕ) :
+    c.wrap.mulFrobCoeff x y k =
+      .ok (x * c.frobC1.getD (k % 3) 0, y * c.frobC2.getD (k % 3) 0) := by
+  show obind (index c.frobC1 (k % 3)) _ = _
+  rw [index_mod_getD _ 3 h1 (by norm_num)]
+  show obind (index c.frobC2 (k % 3)) _ = _
+  rw [index_mod_getD _ 3 h2 (by norm_num)]
+  rfl
+
+/-- the prime-field dictionary (`models/fp/mod.rs`) over an arbitrary field: same bodies as
+    `Ark.Ext.fpD` -/
+def primeD (F : Type) [Field F] [DecidableEq F] : FieldD F F where
+  extDeg := 1
+  square := fun a => a * a
+  double := fun a => a + a
+  inverse := fun a => .ok (if a = 0 then none else some a⁻¹)
+  frob := fun a _ => .ok a
+  mulByPrime := fun a e => a * e
+  ofPrime := fun e => e
+  toPrimes := fun a => [a]
+  fromPrimes := fun l => match l with
+    | [x] => some x
+    | _ => none
+  sop2 := fun a0 a1 b0 b1 => a0 * b0 + a1 * b1
+
+theorem primeD_lawful : BaseLawful (primeD F) where
+  square _ := rfl
+  double _ := rfl
+  sop2 _ _ _ _ := rfl
+  inverse _ := rfl
+
+/-- on a prime field (`|F| = p`) the identity is the `p^k`-power map -/
+theorem primeD_frob [Fintype F] (p : ℕ) (hcard : Fintype.card F = p) (x : F) (k : ℕ) :
+    (primeD F).frob x k = .ok (x ^ p ^ k) := by
+  show Outcome.ok x = _
+  rw [← hcard, FiniteField.pow_card_pow]
+
+theorem primeD_primesLawful : PrimesLawful (primeD F) where
+  toLen := fun _ => rfl
+  fromTo := fun _ => rfl
+  fromSome := by
+    intro l
+    match l with
+    | [] => simp [primeD]
+    | [x] => simp [primeD]
+    | _ :: _ :: _ => simp [primeD]
+  toFrom := by
+    intro l x h
+    match l with
+    | [] => simp [primeD] at h
+    | [y] => simp only [primeD, Option.some.injEq] at h; simp [primeD, h]
+    | _ :: _ :: _ => simp [primeD] at h
+
+/-- **Frobenius of `Fp2`** (`Fp2ConfigWrapper` over the prime field with `p` odd elements): with the
+    two-entry table `C1[i] = β^((p^i-1)/2)`, `frobenius_map(k)` is `a ↦ a^(p^k)` for every `k`. -/
+theorem Fp2.frob_eq_pow [Fintype F] (p : ℕ) [Fact p.Prime] [CharP F p] (hp2 : p % 2 = 1)
+    (hcard : Fintype.card F = p) (c : Fp2Cfg F) (hc : QuadLawful c.wrap)
+    (hnr : ∀ x : F, x * x ≠ c.wrap.nonresidue)
+    (hlen : c.frobC1.length = 2)
+    (htbl : ∀ i, i < 2 → c.frobC1.getD i 0 = c.nonresidue ^ ((p ^ i - 1) / 2))
+    (a : Quad F) (k : ℕ) :
+    letI := Quad.commRing c.wrap (primeD F) primeD_lawful hc
+    Quad.frob c.wrap (primeD F) a k = .ok (a ^ p ^ k) :=
+  Quad.frob_eq_pow p hp2 primeD_lawful hc (primeD_frob p hcard) 2 (fun i => c.frobC1.getD i 0)
+    (Fp2Cfg.wrap_mulFrobCoeff c hlen) htbl (by norm_num)
+    (Quad.pow_period primeD_lawful hc hnr p 2 (by rw [hcard])) a k
+
+/-- **Frobenius of `Fp3`** (`Fp3ConfigWrapper`, `p ≡ 1 mod 3`) -/
+theorem Fp3.frob_eq_pow [Fintype F] (p : ℕ) [Fact p.Prime] [CharP F p] (hp3 : p % 3 = 1)
+    (hcard : Fintype.card F = p) (c : Fp3Cfg F) (hc : CubicLawful c.wrap)
+    (hnc : ∀ x : F, x ^ 3 ≠ c.wrap.nonresidue)
+    (hlen1 : c.frobC1.length = 3) (hlen2 : c.frobC2.length = 3)
+    (htbl1 : ∀ i, i < 3 → c.frobC1.getD i 0 = c.nonresidue ^ ((p ^ i - 1) / 3))
+    (htbl2 : ∀ i, i < 3 → c.frobC2.getD i 0 = c.nonresidue ^ ((2 * p ^ i - 2) / 3))
+    (a : Cubic F) (k : ℕ) :
+    letI := Cubic.commRing c.wrap hc
+    Cubic.frob c.wrap (primeD F) a k = .ok (a ^ p ^ k) :=
+  Cubic.frob_eq_pow p hp3 hc (primeD_frob p hcard) 3 (fun i => c.frobC1.getD i 0)
+    (fun i => c.frobC2.getD i 0)
+    (Fp3Cfg.wrap_mulFrobCoeff c hlen1 hlen2) htbl1 htbl2 (by norm_num)
+    (Cubic.pow_period hc hnc p 3 (by rw [hcard])) a k
+
+/-- **norm of `Fp3`**: with correct tables the `assert!` is unreachable and the result is
+    `a^p · (a^(p²) · a)` -/
+theorem Fp3.norm_spec [Fintype F] (p : ℕ) [Fact p.Prime] [CharP F p] (hp3 : p % 3 = 1)
+    (hcard : Fintype.card F = p) (c : Fp3Cfg F) (hc : CubicLawful c.wrap)
+    (hnc : ∀ x : F, x ^ 3 ≠ c.wrap.nonresidue)
+    (hlen1 : c.frobC1.length = 3) (hlen2 : c.frobC2.length = 3)
+    (htbl1 : ∀ i, i < 3 → c.frobC1.getD i 0 = c.nonresidue ^ ((p ^ i - 1) / 3))
+    (htbl2 : ∀ i, i < 3 → c.frobC2.getD i 0 = c.nonresidue ^ ((2 * p ^ i - 2) / 3))
+    (a : Cubic F) :
+    letI := Cubic.commRing c.wrap hc
+    ∃ n : F, Cubic.norm c.wrap (primeD F) a = .ok n ∧
+      (⟨n, 0, 0⟩ : Cubic F) = a ^ p * (a ^ p ^ 2 * a) := by
+  letI := Cubic.commRing c.wrap hc
+  have h1 := Fp3.frob_eq_pow p hp3 hcard c hc hnc hlen1 hlen2 htbl1 htbl2 a 1
+  have h2 := Fp3.frob_eq_pow p hp3 hcard c hc hnc hlen1 hlen2 htbl1 htbl2 a 2
+  rw [pow_one] at h1
+  have := Cubic.norm_spec (B := primeD F) hc hnc a (by rw [hcard]; exact h1)
+    (by rw [hcard]; exact h2)
+  rwa [hcard] at this
+
+end wrappers
+
+/-! ## cyclotomic operations of the quadratic layers -/
+
+section quadcyc
+variable {P F : Type} [Field F] [DecidableEq F]
+variable {cfg : QuadCfg F} {B : FieldD P F}
+
+theorem Quad.norm_zero (hB : BaseLawful B) (hc : QuadLawful cfg) :
+    Quad.norm cfg B (0 : Quad F) = 0 := by
+  rw [Quad.norm_eq hB hc]; simp
+
+theorem Quad.ne_zero_of_norm_one (hB : BaseLawful B) (hc : QuadLawful cfg) (a : Quad F)
+    (hn : Quad.norm cfg B a = 1) : ¬ (a.c0 = 0 ∧ a.c1 = 0) := by
+  intro h
+  have : a = 0 := (Quad.eq_zero_iff a).mpr h
+  rw [this, Quad.norm_zero hB hc] at hn
+  exact zero_ne_one hn
+
+/-- `cyclotomic_inverse` of the quadratic-extension impls: the conjugate, which on unitary elements
+    is the inverse -/
+theorem cycInverse_conj (hB : BaseLawful B) (hc : QuadLawful cfg) (D : FieldD P (Quad F))
+    (cs : Option (Quad F → Quad F)) (a : Quad F) (hn : Quad.norm cfg B a = 1) :
+    (CycD.conj D cs).cycInverse a = .ok (some (Quad.conj a)) := by
+  show (if a.c0 = 0 ∧ a.c1 = 0 then _ else _) = _
+  rw [if_neg (Quad.ne_zero_of_norm_one hB hc a hn)]
+
+theorem Quad.mul_conj_of_norm_one (hB : BaseLawful B) (hc : QuadLawful cfg) (a : Quad F)
+    (hn : Quad.norm cfg B a = 1) : Quad.mul cfg B a (Quad.conj a) = 1 := by
+  rw [Quad.mul_conj hB hc, hn]; rfl
+
+/-- a unitary element as a unit of the model's ring -/
+def Quad.unitOfNormOne (hB : BaseLawful B) (hc : QuadLawful cfg) (a : Quad F)
+    (hn : Quad.norm cfg B a = 1) :
+    letI := Quad.commRing cfg B hB hc
+    (Quad F)ˣ :=
+  letI := Quad.commRing cfg B hB hc
+  { val := a
+    inv := Quad.conj a
+    val_inv := Quad.mul_conj_of_norm_one hB hc a hn
+    inv_val := by rw [mul_comm]; exact Quad.mul_conj_of_norm_one hB hc a hn }
+
+/-- `cyclotomic_exp` of the quadratic-extension impls (`INVERSE_IS_FAST = true`, NAF digits,
+    inverse = conjugate) on a unitary element `a`, for any cyclotomic squaring that is correct on the
+    powers of `a`: the result is `a ^ e` -/
+theorem Quad.cycExp_conj_gen (hB : BaseLawful B) (hc : QuadLawful cfg) (D : FieldD P (Quad F))
+    (cs : Option (Quad F → Quad F)) (a : Quad F) (hn : Quad.norm cfg B a = 1)
+    (hsq : letI := Quad.commRing cfg B hB hc
+      ∀ z : ℤ, (CycD.conj D cs).cycSquare ((Quad.unitOfNormOne hB hc a hn ^ z : (Quad F)ˣ) : Quad F)
+        = ((Quad.unitOfNormOne hB hc a hn ^ z : (Quad F)ˣ) : Quad F) *
+          ((Quad.unitOfNormOne hB hc a hn ^ z : (Quad F)ˣ) : Quad F))
+    (e : List Nat) (he : WF e) :
+    letI := Quad.commRing cfg B hB hc
+    cycExp (CycD.conj D cs) a e = .ok (a ^ value e) := by
+  letI := Quad.commRing cfg B hB hc
+  have hne : ((Quad.unitOfNormOne hB hc a hn : (Quad F)ˣ) : Quad F) ≠ 0 := by
+    intro h
+    exact Quad.ne_zero_of_norm_one hB hc a hn ((Quad.eq_zero_iff a).mp h)
+  exact cycExp_units (CycD.conj D cs) (Quad.unitOfNormOne hB hc a hn) hne hsq
+    (fun _ => cycInverse_conj hB hc D cs a hn) e he
+
+/-- … in particular with the generic squaring (Fp2, Fp4, Fp6 2-over-3) -/
+theorem Quad.cycExp_conj (hB : BaseLawful B) (hc : QuadLawful cfg) (a : Quad F)
+    (hn : Quad.norm cfg B a = 1) (e : List Nat) (he : WF e) :
+    letI := Quad.commRing cfg B hB hc
+    cycExp (CycD.conj (Quad.fieldD cfg B) none) a e = .ok (a ^ value e) :=
+  Quad.cycExp_conj_gen hB hc (Quad.fieldD cfg B) none a hn
+    (fun _ => Quad.square_eq hB hc _) e he
+
+end quadcyc
+
+section cubiccyc
+variable {P F : Type} [Field F] [DecidableEq F]
+variable {cfg : CubicCfg F} {B : FieldD P F}
+
+/-- `cyclotomic_exp` of the default impl (Fp3, Fp6 3-over-2: `INVERSE_IS_FAST = false`, plain bits)
+    on a non-zero element of the cubic extension field -/
+theorem Cubic.cycExp_default (hB : BaseLawful B) (hc : CubicLawful cfg)
+    (hnc : ∀ x : F, x ^ 3 ≠ cfg.nonresidue) (a : Cubic F) (ha : a ≠ 0) (e : List Nat) (he : WF e) :
+    letI := Cubic.commRing cfg hc
+    cycExp (CycD.default (Cubic.fieldD cfg B)) a e = .ok (a ^ value e) := by
+  letI := Cubic.field cfg hc hnc
+  exact cycExp_units (CycD.default (Cubic.fieldD cfg B)) (Units.mk0 a ha) ha
+    (fun _ => Cubic.square_eq hB hc _) (fun h => by cases h) e he
+
+end cubiccyc
+
 end Ark.ExtB
